@@ -867,7 +867,7 @@ fn run_prop_inner(args: &Args, prop: &str) -> i32 {
     let profile = arg_str(args, "profile", "release").to_string();
     let out_path = arg_str(args, "out", "trace.ndjson").to_string();
     let shapes = read_ndjson(arg_str(args, "shapes", "shapes.ndjson"));
-    let reps = arg_u64(args, "reps", if thorough { 3 } else { 1 });
+    let reps = arg_u64(args, "reps", if thorough { 3 } else if prop == "C02" { 2 } else { 1 });
     let deadline = if thorough { 1200.0 } else { 100.0 };
     let only = args.get("only").cloned(); // replay: a single case id
     let mut pool = Pool::new(seed);
